@@ -92,7 +92,7 @@ func TestVerifC06Release(t *testing.T) {
 		}
 		err := s.Run(t, chansim.RunOpts{
 			MinSteps: 8, MaxSteps: maxSteps, Cuts: true, CutWeight: 3,
-			Faults: true,
+			Faults:    true,
 			AfterStep: func(*chansim.Sim, string) error { return hookErr },
 		})
 		if err == nil {
